@@ -1,5 +1,5 @@
 SPECIFICATION Spec
 CONSTANTS
   W = 3
-  EmitPayLen = 6
+  EmitPayLens = {0, 6}
 CHECK_DEADLOCK FALSE
